@@ -6,7 +6,7 @@ cd "$(dirname "$0")/.."
 python3 tools/gen_facts.py /repo coq/gen
 sh tools/coqproject.sh
 cd coq
-timeout 7200 make -k -j16 2>&1 | grep -v "^COQC\|^COQDEP\|conda\|pyenv\|shims\|^Closed under\|^Axioms:" | tail -30
+timeout 5400 make -k -j16 COQC="timeout 1500 coqc" 2>&1 | grep -v "^COQC\|^COQDEP\|conda\|pyenv\|shims\|^Closed under\|^Axioms:" | tail -30
 cd ..
 for f in coq/Extract_*.v; do a=$(basename $f .v); a=${a#Extract_}; sh ocaml/build.sh $a || echo "driver $a failed"; done
 echo "setup done"
